@@ -36,7 +36,9 @@ def collect(h):
     if not m:
         raise h.Missing(f"{rel}: cannot locate the cache update of CompareAndDelete")
     blk = m.group(1)
-    marker = bool(re.search(r"s\.cache\.Set\(makeKey\(pKey,\s*cCols\),\s*nil\)", blk))
+    # "known missing" is stored directly, or (since the repair of F26b) through setAbsent
+    marker = bool(re.search(r"s\.cache\.Set\(makeKey\(pKey,\s*cCols\),\s*nil\)", blk)
+                  or re.search(r"s\.setAbsent\(makeKey\(pKey,\s*cCols\)\)", blk))
     drops = bool(re.search(r"s\.cache\.Del\(makeKey\(pKey,\s*cCols\)\)", blk))
     if marker == drops:
         raise h.Missing(f"{rel}: CompareAndDelete neither drops the cache entry nor caches the absence; update C07_Cache/Model.v")
@@ -132,12 +134,49 @@ def big_values(h, rel):
             raise h.Missing(f"{rel}: the mark is no longer the one-byte entry recognised by its length; update entry_len in C07_Cache/Model.v")
         items.append(("cache_big_values_marked", "bool", "true", rel + " setCached at every positive store, isUncacheable in Get/TTLGet/getBatchFromCache"))
         items.append(("cache_max_entry_size", "Z", str(size), rel + " maxCachedEntrySize"))
+        items.append(key_guard(h, rel, s, body))
     elif old_w == len(writers) and old_r == len(readers):
         # the shape before the repair of F26: every entry goes to fastcache as it is; the limit the model
         # then never consults is set to the point where fastcache starts ignoring entries
         items.append(("cache_big_values_marked", "bool", "false", rel + " positive stores call s.cache.Set directly, reads do not know a mark"))
         items.append(("cache_max_entry_size", "Z", str(chunk - 4), "(not in the source: fastcache chunkSize - 4)"))
+        if "setAbsent" in s or "cacheableKey" in s:
+            raise h.Missing(f"{rel}: a key guard without the mark; update C07_Cache/Model.v")
+        items.append(("cache_key_guard", "bool", "false", rel + " no setCached, no key guard"))
     else:
         raise h.Missing(f"{rel}: entries too large for fastcache are handled inconsistently "
                         f"(positive stores through setCached: {new_w}, direct: {old_w}; reads testing isUncacheable: {new_r}, not: {old_r}); update C07_Cache/Model.v")
     return items
+
+
+def key_guard(h, rel, s, set_cached_body):
+    """F26b: under a key for which not even the mark fits (len(key)+1 >= maxCachedEntrySize) nothing is cached.
+    New shape: cacheableKey, tested first in setCached and in setAbsent, which every store of "known missing"
+    goes through. Old shape: none of the three; "known missing" is stored by s.cache.Set(.., nil) directly."""
+    sites = {
+        "CompareAndDelete": r"^func \(s \*cachedAppStorage\) CompareAndDelete\(",
+        "TTLGet": r"^func \(s \*cachedAppStorage\) TTLGet\(",
+        "Get": r"^func \(s \*cachedAppStorage\) Get\(",
+        "getBatchFromStorage": r"^func \(s \*cachedAppStorage\) getBatchFromStorage\(",
+    }
+    n_new, n_old = 0, 0
+    for name, pat in sites.items():
+        body = h.func_body(rel, pat, "cache " + name)
+        a = len(re.findall(r"s\.setAbsent\(", body))
+        b = len(re.findall(r"s\.cache\.Set\([^\n]*,\s*nil\)", body))
+        if a + b != 1:
+            raise h.Missing(f"{rel}: {name} has {a + b} stores of 'known missing', expected one; update C07_Cache/Model.v")
+        n_new += a
+        n_old += b
+    has_pred = re.search(r"^func cacheableKey\(key \[\]byte\) bool \{ return len\(key\)\+len\(uncacheable\) < maxCachedEntrySize \}", s, re.M) is not None
+    guard_first = re.match(r"\s*if !cacheableKey\(key\) \{\s*return\s*\}", set_cached_body) is not None
+    has_absent = False
+    if re.search(r"^func \(s \*cachedAppStorage\) setAbsent\(", s, re.M):
+        ab = h.func_body(rel, r"^func \(s \*cachedAppStorage\) setAbsent\(", "setAbsent")
+        has_absent = re.fullmatch(r"\s*if cacheableKey\(key\) \{\s*s\.cache\.Set\(key, nil\)\s*\}\s*", ab) is not None
+    if n_new == len(sites) and has_pred and guard_first and has_absent:
+        return ("cache_key_guard", "bool", "true", rel + " cacheableKey tested by setCached and setAbsent; setAbsent at every store of 'known missing'")
+    if n_old == len(sites) and not has_pred and not guard_first and "cacheableKey" not in s and "setAbsent" not in s:
+        return ("cache_key_guard", "bool", "false", rel + " 'known missing' stored directly, setCached without a key guard")
+    raise h.Missing(f"{rel}: the key guard of the cache is applied inconsistently (setAbsent sites {n_new}, direct {n_old}, "
+                    f"cacheableKey {has_pred}, first in setCached {guard_first}, setAbsent shape {has_absent}); update C07_Cache/Model.v")
